@@ -1,8 +1,9 @@
 """C02 — NDJSON write/read round trip and documented JSON mapping.
 
-Proof: Props/C02.lean (the mapping round-trips: fromJ (toJ v) = v; untagged unions are read back as
+Proof: Props/C02.lean — json_round_trip: fromJ (toJ v) = v for every well-formed type and typed value
+(all constructors, any depth; !flags excluded: evaluated per value); untagged unions are read back as
 the written case because the JSON data types of the cases are pairwise disjoint and each value's JSON
-type is among its type's; records with omitted optional fields).
+type is among its type's; records with omitted optional fields.
 Correspondence through freshly generated C++ and Python:
   writer leg: Lean-encoded binary reference stream -> generated reader -> generated NDJSON writer; every
               line must denote (as a JSON value) what the Lean mapping `toJ` prescribes; header line first;
@@ -19,7 +20,8 @@ import modelgen
 import vlib
 from checks.c01 import _files, _errclass
 
-THEOREMS = ["Yardl.C02.prim_kinds_sound", "Yardl.C02.prim_kinds_match_source"]
+THEOREMS = ["Yardl.C02.json_round_trip", "Yardl.C02.untagged_case_is_recovered", "Yardl.C02.json_type_is_announced",
+            "Yardl.C02.prim_kinds_sound", "Yardl.C02.prim_kinds_match_source", "Yardl.C02.nested_optional_collapses"]
 
 
 def run(report, tier, seed):
@@ -74,9 +76,11 @@ def exercise(report, lab, lean, n_sets, seed, prop, langs=None):
             parts = [g.gen_partition(len(v[1])) if v[0] == "stream" else [] for v in vals]
             enc = lean.ask({"op": "enc_proto", "proto": pj, "parts": parts, "vals": vals, "schema": lab.schemas[pname]})
             tj = lean.ask({"op": "toj_proto", "proto": pj, "vals": vals})
+            report.count("model.wf-types" if tj.get("wf") else "model.types-outside-WF (flags / nested optionals)")
             if not tj["model_round_trip"]:
-                report.violation("model:fromJ-toJ", {"theorem_or_correspondence": "Lean fromJ (toJ v) = v evaluated on a generated value", "protocol": pj, "vals": vals},
-                                 "the Lean JSON mapping does not round-trip this value (hypotheses of json_round_trip not met?)")
+                report.violation("model:fromJ-toJ", {"theorem_or_correspondence": "Lean fromJ (toJ v) = v evaluated on a generated value", "protocol": pj, "vals": vals,
+                                                     "wf": tj.get("wf")},
+                                 "the Lean JSON mapping does not round-trip this value (outside the hypotheses of json_round_trip: flags / nested optionals?)")
             lines = [(ln[0], ln[1]) for ln in tj["lines"]]
             binp = lab.tmp(".ref.bin")
             open(binp, "wb").write(bytes.fromhex(enc["hex"]))
